@@ -742,6 +742,9 @@ func (cx *pathCtx) fnInfo(fn *ssa.Function) *fnInfo {
 	info := &fnInfo{name: fn.String()}
 	info.ext = externals[info.name]
 	if info.ext == nil {
+		info.ext = externalsByPrefix(info.name)
+	}
+	if info.ext == nil {
 		if fn.Name() == "init" && fn.Pkg != nil && fn.Parent() == nil && fn.Signature.Recv() == nil && !initAllowed(fn.Pkg.Pkg.Path()) {
 			info.skipInit = true
 		}
